@@ -6,8 +6,8 @@ RULE = ("windows (a, a+d] with d <= 10^4 and a log-uniform in [1, 10^16] (half o
         "straddles a multiple of 240*2^j, 2310, 510510 or a power of two / ten), plus windows straddling the dispatcher "
         "thresholds 30719, 10^5, 10^8 and a = 0..3; each op asks pi at a and at three points of the window through "
         "pi(std::string) (some through pi64 / pi128) and the three differences are compared with the proved window "
-        "sieve; about 20 calls of the real code lie above 10^15 in the quick tier. thorough: 10x more windows and one "
-        "window across 2^63 (64-bit -> 128-bit code). distinct = windows containing at least one prime.")
+        "sieve; about 20 calls of the real code lie above 10^15 in the quick tier. thorough: 10x more windows, one "
+        "window across 2^63 (64-bit -> 128-bit code) and one across 65537^4 (x_star crosses 2^16). distinct = windows containing at least one prime.")
 TRUSTED = ["`piApi128_diff` / `piApi_mono` are corollaries of C01.piApi_correct and carry its RouteCorrect hypotheses "
            "(discharged by C17, C02/C07, C08; Gourdon partial)",
            "ORACLE side is unconditional: windowPrimes_correct, windowDeltas_wheel/_sieve, windowList_correct "
@@ -77,6 +77,14 @@ def streams(ctx):
         sts.append(Stream("across-2^63", ops, oracle=True, model_ops=lambda ops_, impl: [ops_[0]],
                           judge=lambda ops_, impl, mops, model: wj(ops_, impl, mops, model * len(ops_)),
                           nontrivial=lambda o, r: None, timeout=6 * 3600, env={"PCV_OP_TIMEOUT": "7200"}))
+        # x_star = x^(1/4) crosses 2^16 at x = 65537^4 (> 2^64): from there on the primes of the A/C formulas no longer fit
+        # 16 bits and their squares no longer fit the 32-bit element type of the prime tables — the only place where the
+        # DEFAULT tuning crosses that type boundary (seeded change C05-a: pi DEcreased by 7e12 exactly there)
+        a = 65537 ** 4 - 3
+        ops = ["piwin pistr %d 2 3 4" % a]
+        sts.append(Stream("x_star-crosses-2^16", ops, oracle=True, model_ops=pc.window_model_ops(),
+                          judge=pc.window_judge(ctx, "x_star-crosses-2^16"), nontrivial=lambda o, r: None,
+                          timeout=6 * 3600, env={"PCV_OP_TIMEOUT": "7200"}))
     return sts
 
 
